@@ -58,6 +58,7 @@ Nullary == << ENul("LENGTH"), ENul("KEYS"), ENul("REVERSE"), ENul("UNIQUE"), EFl
               ENul("MIN"), ENul("MAX"), EUn("SORT_KEYS", ESelf), EUn("SORT_KEYS", ERecurse(FALSE)), EUn("ERROR", ELit(StrV(A))),
               [op |-> "CHANGE_CASE", upper |-> TRUE], [op |-> "CHANGE_CASE", upper |-> FALSE], ENul("TRIM"),
               EPipe(ELit(StrV(<<" ", "a", "B", " ">>)), ENul("TRIM")), EPipe(ELit(StrV(<<"a", "B", " ">>)), [op |-> "CHANGE_CASE", upper |-> TRUE]),
+              EPipe(ERecurse(FALSE), [op |-> "GET_PARENT", level |-> 2]), EPipe(EPath(A), [op |-> "GET_PARENT", level |-> 1]),
               ENul("IS_KEY"), ENul("GET_DOCUMENT_INDEX"), ENul("GET_FILE_INDEX"), ENul("GET_ANCHOR"),
               [op |-> "ENV", name |-> "va", str |-> FALSE], [op |-> "ENV", name |-> "vn", str |-> FALSE], [op |-> "ENV", name |-> "vu", str |-> FALSE],
               [op |-> "ENV", name |-> "vt", str |-> TRUE], [op |-> "ENV", name |-> "vu", str |-> TRUE] >>
